@@ -104,3 +104,45 @@ package goat
 //@   ensures[C03.plain_error_text] bound("appErr") && appErr != nil && !isStatus(appErr) ==> result.Status.Code != 0 && result.Status.Message == errText(appErr)
 //@   ensures[C03.error_never_ok] bound("appErr") && appErr != nil ==> result.Status != nil && result.Status.Code != 0
 //@   ensures[C01.reply_body] bound("resp") && resp != nil && bound("err") && err == nil ==> result.Body != nil && result.Body.Data == protoBytes(resp)
+
+//@ objinv[C10.objinv C07.objinv] goat.handler : cancels(self.cancel) == self.ctx
+// what RegisterService (reflect-based, not under contract) stores: non-nil descriptors with non-nil handlers
+//@ objinv[C12.objinv C01.objinv] goat.handler : forall s String :: s in self.srv.services ==> self.srv.services[s] != nil
+//@ objinv[C12.objinv C01.objinv] goat.handler : forall s String :: forall m String :: s in self.srv.services && m in self.srv.services[s].methods ==> self.srv.services[s].methods[m] != nil && self.srv.services[s].methods[m].Handler != nil
+//@ objinv[C12.objinv C01.objinv] goat.handler : forall s String :: forall m String :: s in self.srv.services && m in self.srv.services[s].streams ==> self.srv.services[s].streams[m] != nil && self.srv.services[s].streams[m].Handler != nil
+
+//@ func goat.(*handler).runStream
+//@   nopanic[C12.nopanic]
+//@   requires info != nil && sd != nil && sd.Handler != nil && rpc != nil && rpc.Header != nil && ctx != nil
+//@   requires handler.ch != nil && handler.cancel != nil && handler.done != nil && isclass(handler.ch, "goat.streams.ch") && tag(handler.ch) == streamId
+//@   ensures[C14.stream_unregistered C10.stream_unregistered] !(streamId in h.streams)
+//@   ensures[C06.trailer_after_handler C02.trailer_after_handler C03.trailer_after_handler] ncalls("call:server.(*serverStream).SendTrailer") == old(ncalls("call:server.(*serverStream).SendTrailer")) + 1
+//@   ensures[C01.handler_once C20.handler_once C12.handler_once] ncalls("fnfield:H.google.golang.org/grpc.StreamDesc.Handler") + ncalls("fnfield:H.goat.Server.streamInterceptor")
+//@     | == old(ncalls("fnfield:H.google.golang.org/grpc.StreamDesc.Handler") + ncalls("fnfield:H.goat.Server.streamInterceptor")) + 1
+//@   ensures[C07.stream_ctx_cancelled_at_exit C10.stream_ctx_cancelled_at_exit] done(cancels(handler.cancel))
+//@   atcall[C03.trailer_carries_handler_result C06.trailer_carries_handler_result] server.(*serverStream).SendTrailer : arg1 == appErr
+
+// reader closure of a server stream: only this stream's queue, or the stream context's error
+//@ func goat.(*handler).runStream$1
+//@   nopanic[C12.nopanic]
+//@   requires ctx != nil
+//@   captures[C05.own_queue] handler.ch != nil && isclass(handler.ch, "goat.streams.ch")
+//@   ensures[C02.reader_result_wellformed C12.reader_result_wellformed] (result.1 == nil) != (result.0 == nil)
+//@   ensures[C05.only_own_envelopes] result.1 == nil && isclass(handler.ch, "goat.streams.ch") ==> result.0.Id == tag(handler.ch)
+
+// writer closure of a server stream: hands the envelope to the connection's writer, unchanged
+//@ func goat.(*handler).runStream$2
+//@   nopanic[C12.nopanic]
+//@   requires ctx != nil
+//@   atcall[C02.write_unchanged C06.write_unchanged] send : arg1 == r
+//@   ensures[C06.one_envelope_per_write C02.one_envelope_per_write] result == nil ==> ncalls("send") == old(ncalls("send")) + 1
+//@   ensures[C06.one_envelope_per_write] result != nil ==> ncalls("send") == old(ncalls("send"))
+
+//@ func goat.(*handler).serve
+//@   nopanic[C12.nopanic]
+//@   requires clientCtx != nil
+//@   loop 0 invariant[C12.client_ctx] clientCtx != nil
+//@   loop 1 invariant[C12.client_ctx] clientCtx != nil
+//@   loop 2 invariant[C12.client_ctx] clientCtx != nil
+//@   ensures[C10.conn_ctx_cancelled_on_exit] done(h.ctx)
+//@   ensures[C10.exit_only_on_error] result != nil
